@@ -10,6 +10,7 @@ import VirtioVerif.Model.PciCap
 import VirtioVerif.Model.VsockConn
 import VirtioVerif.Model.Console
 import VirtioVerif.Model.EventQueues
+import VirtioVerif.Model.Init
 /-!
 Native line-protocol driver over all models: one request line in, one reply line out.
 `case …` lines reset per-case state and are echoed as `case`.
@@ -45,6 +46,7 @@ def step (w : World) (line : String) : World × String :=
   | "vsock" :: op :: rest => let (v, o) := VsockConn.handle w.vsock op (Proto.parseArgs rest); ({ w with vsock := v }, o)
   | "evq" :: op :: rest => let (c, o) := EventQueues.handle w.evq op (Proto.parseArgs rest); ({ w with evq := c }, o)
   | "con" :: op :: rest => let (c, o) := Console.handle w.con op (Proto.parseArgs rest); ({ w with con := c }, o)
+  | "init" :: op :: rest => (w, Init.handle op (Proto.parseArgs rest))
   | _ => (w, "bad-op")
 
 partial def loop (h : IO.FS.Stream) (out : IO.FS.Stream) (w : World) : IO Unit := do
